@@ -107,6 +107,9 @@ type Prop interface {
 
 type Setupper interface{ Setup(tier string) error }
 type Teardowner interface{ Teardown() }
+
+// Lingerer: how long the process stays alive after the last case
+type Lingerer interface{ Linger() time.Duration }
 type Paralleler interface{ Parallel() int }
 
 // Suspecter lets a property flag an observation that took a long timeout (blocked, missing);
@@ -247,6 +250,11 @@ func runCmd(args []string) int {
 	}
 	wg.Wait()
 	recs = recs[:ran]
+	if l, ok := p.(Lingerer); ok {
+		// timers the implementation has left behind fire in goroutines of their own: a panic there takes
+		// this process down and is reported as a crash
+		time.Sleep(l.Linger())
+	}
 	if s, ok := p.(Teardowner); ok {
 		s.Teardown()
 	}
